@@ -139,7 +139,11 @@ def byte_case(part, ia32, b, meta, seen_prefix):
 def all_units(tier):
     P = S.PFX_QUICK if tier == 'quick' else S.PFX_THOROUGH
     tails = ['neg'] if tier == 'quick' else ['neg', 'zero', 'ff']
-    return [(pfx, m, op, tn) for tn in tails for pfx in P for m in S.MAP_ORDER for op in range(256)]
+    U = [(pfx, m, op, tn) for tn in tails for pfx in P for m in S.MAP_ORDER for op in range(256)]
+    # fwait directly in front of every x87 opcode x every ModRM (a decoder that looks ahead to fuse 9B DB E3 into finit etc. must still
+    # report every truncation as absent and consume exactly what it reports)
+    U += [(pre + (0x9B,), '1', op, 'neg') for pre in ((), (0x66,), (0x64,)) for op in range(0xD8, 0xE0)]
+    return U
 
 
 def shard_bytes(s, ns, tier, seed):
